@@ -28,11 +28,13 @@ def intake(wt):
             eqv = os.path.join(sd, "equiv.py")
             eq_ok = None
             if os.path.isfile(eqv):
+                # the script may read files delivered next to it (recorded expectations): run it inside a copy of its directory
+                shutil.copytree(sd, os.path.join(root, "_eqdir"))
                 txt = open(eqv).read().replace(wt, root)
-                open(os.path.join(root, "_equiv.py"), "w").write(txt)
-                r = subprocess.run(["/venv/bin/python", "-m", "pytest", "-q", "-p", "no:cacheprovider", "_equiv.py"], cwd=root, env=dict(os.environ, PYTHONPATH=root), capture_output=True, text=True)
-                if r.returncode == 5:  # no tests collected: plain script
-                    r = subprocess.run(["/venv/bin/python", "_equiv.py"], cwd=root, env=dict(os.environ, PYTHONPATH=root), capture_output=True, text=True)
+                open(os.path.join(root, "_eqdir", "equiv.py"), "w").write(txt)
+                r = subprocess.run(["/venv/bin/python", "-m", "pytest", "-q", "-p", "no:cacheprovider", "_eqdir/equiv.py"], cwd=root, env=dict(os.environ, PYTHONPATH=root), capture_output=True, text=True)
+                if r.returncode != 0:  # no tests collected, or written to be run as a script
+                    r = subprocess.run(["/venv/bin/python", "_eqdir/equiv.py"], cwd=root, env=dict(os.environ, PYTHONPATH=root), capture_output=True, text=True)
                 eq_ok = r.returncode == 0
             ok = not missing and all(t.startswith("ceos_alos2/") and "/tests/" not in t for t in touched) and eq_ok is not False
             print(f"{name}-{n}: touched={touched} regressions={len(missing)} passed={npass} equiv.py={'ok' if eq_ok else eq_ok} -> {'KEEP' if ok else 'REJECT'}")
